@@ -11,7 +11,7 @@ from depsim import env, gen, refparser, session
 from depsim.props.base import ParserSessionProp
 from depsim.runner import Violation, add_set, bump, digest, new_stats
 
-EN_WORDS = ['dog', 'Mr.', "it's", '(', '[', ']', '{', 'a(b', '<x>', 'x>y', '&amp;', 'ü', '日本', '%', '1,000', '"', "'",
+EN_WORDS = ['a_b', '_', 'x[1]', '42', '3.14', 'dog', 'Mr.', "it's", '(', '[', ']', '{', 'a(b', '<x>', 'x>y', '&amp;', 'ü', '日本', '%', '1,000', '"', "'",
             ')', 'a)', '))', '(a)', '-', '--', 'U.S.', ';', 'e=mc2']
 JA_WORDS = ['犬', 'が', 'は', '走る', '(', ')', '[', ']', 'abc', '１２', 'を', '、', '。', 'x>y', '&', 'た', 'ー']
 
